@@ -58,12 +58,19 @@ def generate(seed: int, tier: str, phase: str) -> Dict[str, Any]:
     sr = r.choice([0, 0, 0, 1, 2, 3, 4, 5, 6, 7, 8, 9, 10, 11, 12, -1, -2, -3])
     if sr < 0:  # nearly all bits: 23 - M - k random bits
         sr = 23 - M + sr
+    # several formats with the same (E, M) and different srbits live in one process and are
+    # used in an interleaved order: anything the library keeps between calls (per-format
+    # caches) is shared state, and the property has to hold for every such history
+    fmts = [[E, M, sr]]
+    for _ in range(r.choice([0, 0, 1, 2])):
+        sr2 = r.choice([0, 1, 2, 3, 4, 6, 8, 12])
+        if all(f[2] != sr2 for f in fmts):
+            fmts.append([E, M, sr2])
     ops = []
-    for _ in range(r.choice([1, 2, 3, 4])):
+    for _ in range(r.choice([1, 2, 3, 4]) + len(fmts) - 1):
         ops.append({"cls": r.choice(CLASSES), "iseed": r.randrange(1 << 31), "skip": 0,
-                    "n": 1 << 20, "shape2d": r.random() < 0.3})
-    return {"phase": phase, "fmt": [E, M, sr], "ops": ops, "timeout": 400,
-            "shrink_budget": 300}
+                    "n": 1 << 20, "shape2d": r.random() < 0.3, "f": r.randrange(len(fmts))})
+    return {"phase": phase, "fmts": fmts, "ops": ops, "timeout": 400, "shrink_budget": 300}
 
 
 # ------------------------------------------------------------------------------------
@@ -184,7 +191,7 @@ def execute(plan: Dict[str, Any]) -> Dict[str, Any]:
 
     res = empty_result()
     log = core.EventLog()
-    E, M, sr = plan["fmt"]
+    fmts = plan.get("fmts") or [plan["fmt"]]
     probes: Dict[str, int] = {}
     states: List[str] = []
 
@@ -192,31 +199,36 @@ def execute(plan: Dict[str, Any]) -> Dict[str, Any]:
         probes[name] = probes.get(name, 0) + k
 
     try:
-        fmt = FPFormat(E, M, "stochastic", sr)
-        d = 23 - M
-        # the default (0) means "all discarded bits": the exact clause applies whatever the
-        # library then stores in its field; otherwise the caller's requested bit count
-        srbits = d if sr == 0 else sr
-        allbits = srbits == d
+        objs = [FPFormat(E_, M_, "stochastic", sr_) for E_, M_, sr_ in fmts]
+        if len(fmts) > 1:
+            probe("runs_with_several_formats")
         with RandintSeam() as seam:
-            seam.mode = "probe"
-            fmt.quantise(torch.zeros(3, dtype=torch.float32))
-            if len(seam.requests) != 1:
-                if not seam.requests:
-                    raise RuntimeError("quantise made no torch.randint request: seam not reachable")
-                raise Violation("independent_draws", "several_requests_per_call",
-                                f"{seam.requests}")
-            low, high, size, _ = seam.requests[0]
-            if size != (3,):
-                raise Violation("independent_draws", "draw_shape_differs_from_input",
-                                f"input shape (3,), random request shape {size}: elements share draws")
-            R = high - low
-            if R < 1 or R > (1 << 24):
-                raise RuntimeError(f"requested draw range [{low},{high}) cannot be enumerated")
-            log.add("request", low, high)
-            min_normal = 2.0 ** fm.emin(E)
-            grid = 2.0 ** (fm.emin(E) - 23)  # multiples survive the down-scaling exactly
             for op in plan["ops"]:
+                fi = op.get("f", 0) % len(fmts)
+                E, M, sr = fmts[fi]
+                fmt = objs[fi]
+                d = 23 - M
+                # the default (0) means "all discarded bits": the exact clause applies whatever
+                # the library then stores in its field; otherwise the caller's requested count
+                srbits = d if sr == 0 else sr
+                allbits = srbits == d
+                seam.mode = "probe"
+                seam.requests.clear()
+                fmt.quantise(torch.zeros(3, dtype=torch.float32))
+                if len(seam.requests) != 1:
+                    if not seam.requests:
+                        raise RuntimeError("quantise made no torch.randint request: seam not reachable")
+                    raise Violation("independent_draws", "several_requests_per_call", f"{seam.requests}")
+                low, high, size, _ = seam.requests[0]
+                if size != (3,):
+                    raise Violation("independent_draws", "draw_shape_differs_from_input",
+                                    f"input shape (3,), random request shape {size}: elements share draws")
+                R = high - low
+                if R < 1 or R > (1 << 24):
+                    raise RuntimeError(f"requested draw range [{low},{high}) cannot be enumerated")
+                log.add("request", low, high)
+                min_normal = 2.0 ** fm.emin(E)
+                grid = 2.0 ** (fm.emin(E) - 23)  # multiples survive the down-scaling exactly
                 n0 = max(1, min(ELEM_BUDGET // R, 4096))  # independent of the shrink window
                 x = gen_inputs(E, M, srbits, op["cls"], n0, op["iseed"])
                 x = x[op.get("skip", 0):][: max(1, op["n"])]
